@@ -3,7 +3,7 @@ import itertools
 from harness.props.ptrcommon import *
 PROP = "C03"
 COQ_FILES = ["Machine.v", "Ptr.v", "Ptr_proofs.v"]
-DRIVERS = drivers("CHAIN", ["chain", "xlate"], CFG_XL) + \
+DRIVERS = drivers("CHAIN", ["chain", "xlate"], CFG_XL) + drivers("CHAIN", ["chain"], CFG_F) + \
     [dict(name="ptr_grant_32", src="ptr.cpp", defines=["VERIF_CFG=verif_cfg32g", "PART_BULK", "PTR_GRANT"], ops=["ggrant32"])]   # back end WITH grant/deny
 
 
@@ -59,6 +59,19 @@ def gen_cases(tier, rng):
             st = rng.choice(starts)
             n = rng.randrange(3, 12)
             ops = [rng.choice(alpha) for _ in range(n)]
+            cases.append("chain%s %d %s" % (cfg, st, " ".join(ops)))
+    # the back end whose same-sandbox test is built on RLBox's finder, with ONE sandbox alive
+    for cfg, c in CFG_F.items():
+        A = c["bases"][0]
+        size = c["size"]
+        alpha = alphabet(cfg, c)
+        for st in [0, A, A + size - 1, A + 4096, A + 64]:
+            for d in (1, 2):
+                for ops in itertools.product(alpha, repeat=d):
+                    cases.append("chain%s %d %s" % (cfg, st, " ".join(ops)))
+        for _ in range(1000 if tier == "quick" else 10000):
+            st = rng.choice([0, A, A + size - 1, A + 4096, A + 64])
+            ops = [rng.choice(alpha) for _ in range(rng.randrange(3, 10))]
             cases.append("chain%s %d %s" % (cfg, st, " ".join(ops)))
     # cb must be last in a chain (the driver reports the callback's argument and stops): already true (only used alone)
     # granting access (a back end that can grant): the tainted pointer handed back is the back end's answer only when the back end
